@@ -1270,3 +1270,62 @@ Proof.
   intros H. destruct (step_kind _ _ _ _ _ H) as [_ Hk]. rewrite replay_gev.
   apply (kstep_replay _ _ _ _ _ _ _ _ (Hk g)).
 Qed.
+
+(** * Concurrent callers as interleavings of atomic steps
+
+    [interleaving ps ops]: [ops] is a merge of the callers' programs [ps] that keeps every caller's own
+    order.  The clauses above quantify over ALL operation sequences, so they hold in particular after
+    every interleaving.  What this does not cover is whether a call of the implementation really is one
+    atomic step (whether informerReferencesMux is held from the first look at informerReferences to the
+    last use of the informer); that is what the overlapping-call runs of the check test. *)
+Inductive interleaving : list (list op) -> list op -> Prop :=
+| il_done ps : Forall (fun p => p = []) ps -> interleaving ps []
+| il_step ps1 x p ps2 ops :
+    interleaving (ps1 ++ p :: ps2) ops -> interleaving (ps1 ++ (x :: p) :: ps2) (x :: ops).
+
+Lemma interleaving_forallb (P : op -> bool) ps ops :
+  interleaving ps ops -> Forall (fun p => forallb P p = true) ps -> forallb P ops = true.
+Proof.
+  induction 1 as [ps _|ps1 x p ps2 ops _ IH]; intros Hall; [reflexivity|].
+  apply Forall_app in Hall as [H1 H2]. inversion H2 as [|? ? Hx H3]; subst.
+  cbn in Hx. apply andb_true_iff in Hx as [Hx Hp]. cbn. rewrite Hx. cbn.
+  apply IH. apply Forall_app. split; [assumption|]. constructor; assumption.
+Qed.
+
+Theorem any_interleaving_of_atomic_steps_keeps_invariant handlers ps ops g :
+  interleaving ps ops ->
+  Forall (fun p => no_delete_failures p = true) ps ->
+  let s := Cache_fixed.run (init handlers) ops in
+  (running s g <-> owned s g) /\ (running s g -> all_handlers s g) /\ NoDup (owners s g).
+Proof.
+  intros Hil Hnd s.
+  assert (Hops : no_delete_failures ops = true) by (eapply interleaving_forallb; eassumption).
+  split; [now apply Cache_fixed_inv_informer_iff_owner|].
+  split; [apply Cache_fixed_handlers_complete|apply (owners_nodup true)].
+Qed.
+
+(** The same for the code before the repair, when no informer start fails. *)
+Theorem any_interleaving_of_atomic_steps_keeps_invariant_partial handlers ps ops g :
+  interleaving ps ops ->
+  Forall (fun p => no_start_failures p = true) ps ->
+  Forall (fun p => no_delete_failures p = true) ps ->
+  let s := run (init handlers) ops in
+  (running s g <-> owned s g) /\ (running s g -> all_handlers s g) /\ NoDup (owners s g).
+Proof.
+  intros Hil Hsf Hnd s.
+  assert (Hops : no_delete_failures ops = true) by (eapply interleaving_forallb; eassumption).
+  assert (Hops' : no_start_failures ops = true) by (eapply interleaving_forallb; eassumption).
+  split; [now apply inv_informer_iff_owner_partial|].
+  split; [now apply handlers_complete_partial|apply (owners_nodup false)].
+Qed.
+
+Example interleaving_example :
+  interleaving [[Watch 0 0 ok; Free 0 ok []]; [Get 0; Watch 1 0 ok]]
+               [Watch 0 0 ok; Get 0; Free 0 ok []; Watch 1 0 ok].
+Proof.
+  apply (il_step [] (Watch 0 0 ok) [Free 0 ok []] [[Get 0; Watch 1 0 ok]]).
+  apply (il_step [[Free 0 ok []]] (Get 0) [Watch 1 0 ok] []).
+  apply (il_step [] (Free 0 ok []) [] [[Watch 1 0 ok]]).
+  apply (il_step [[]] (Watch 1 0 ok) [] []).
+  apply il_done. repeat constructor.
+Qed.
